@@ -179,16 +179,16 @@ fn worker(slot: std::sync::Arc<Slot>) {
             21 => return,
             20 => {}
             n => match ALL_OPS[(n - 1) as usize] {
-                TOp::Enable => tracing_enabled::enable(),
-                TOp::Disable => tracing_enabled::disable(),
-                TOp::Toggle => tracing_enabled::toggle(),
-                TOp::LocalEnable => tracing_enabled::local_enable(),
-                TOp::LocalDisable => tracing_enabled::local_disable(),
-                TOp::LocalToggle => tracing_enabled::local_toggle(),
+                TOp::Enable => { let _ = tracing_enabled::enable(); }
+                TOp::Disable => { let _ = tracing_enabled::disable(); }
+                TOp::Toggle => { let _ = tracing_enabled::toggle(); }
+                TOp::LocalEnable => { let _ = tracing_enabled::local_enable(); }
+                TOp::LocalDisable => { let _ = tracing_enabled::local_disable(); }
+                TOp::LocalToggle => { let _ = tracing_enabled::local_toggle(); }
                 TOp::LocalTake => token = Some(tracing_enabled::local_take()),
                 TOp::Restore => {
                     if let Some(t) = token.take() {
-                        tracing_enabled::restore(t)
+                        let _ = tracing_enabled::restore(t);
                     }
                 }
                 TOp::TakeDiscard => {
@@ -197,7 +197,7 @@ fn worker(slot: std::sync::Arc<Slot>) {
                 TOp::Take2 => token2 = Some(tracing_enabled::local_take()),
                 TOp::Restore2 => {
                     if let Some(t) = token2.take() {
-                        tracing_enabled::restore(t)
+                        let _ = tracing_enabled::restore(t);
                     }
                 }
             },
@@ -250,7 +250,7 @@ pub fn run_history(hist: &[(usize, TOp)]) -> Option<Divergence> {
 pub fn run_history_mode(hist: &[(usize, TOp)], late: bool) -> Option<Divergence> {
     // put the process-wide flag into the reference's initial state; the explorer thread's own
     // override is irrelevant (it never asks for its view)
-    tracing_enabled::enable();
+    let _ = tracing_enabled::enable();
     let slots: Vec<std::sync::Arc<Slot>> = (0..2).map(|_| std::sync::Arc::new(Slot { cmd: 0.into(), obs: 0.into() })).collect();
     let mut handles: Vec<Option<std::thread::JoinHandle<()>>> = vec![None, None];
     let spawn = |t: usize| {
